@@ -384,35 +384,59 @@ func VP_C18_iso_pathtable_lookup() {
 	vp.Cover("root looked up")
 }
 
+// c18IsoDev is the image of c18IsoRead: zeroed system area, two volume descriptors at 32768 and 34816,
+// arbitrary data from 36864 on. Reads are case-split on the offset so that descriptor bytes are not
+// looked up through symbolic offsets; pointers (path table, root extent) into the system or descriptor
+// area at other offsets are outside the explored inputs (Assume).
+type c18IsoDev struct {
+	c18Dev
+	vd [2][]byte
+}
+
+func (d *c18IsoDev) ReadAt(p []byte, off int64) (int, error) {
+	if off == 0 {
+		return len(p), nil
+	}
+	for k := 0; k < 2; k++ {
+		if off == int64(32768+2048*k) {
+			return copy(p, d.vd[k]), nil
+		}
+	}
+	vp.Assume(off >= 36864)
+	return d.c18Dev.ReadAt(p, off)
+}
+
 // c18IsoRead: iso9660.Read on an image with two volume descriptors of the given types (standard
 // identifier, dates "not specified", root record with a 1-byte name and fixed recording date; all other
 // descriptor bytes arbitrary) followed by arbitrary data: 32 KiB system area + 2 descriptors + 1 block.
-func c18IsoRead(t0typ, t1typ byte) {
+func c18IsoRead(t0typ, t1typ byte, maybeTerm bool) {
 	const size = 32768 + 3*2048
-	dev := c18NewDev("img", size)
+	dev := &c18IsoDev{c18Dev: *c18NewDev("img", size)}
+	noPVD := t0typ != 1 && t1typ != 1
 	for k, typ := range []byte{t0typ, t1typ} {
 		vd := vp.Bytes("vd"+string(rune('0'+k)), 2048)
 		vd[0] = typ
-		copy(vd[1:6], "CD001")
-		if typ == 255 {
-			for j := 6; j < 2048; j++ {
-				vd[j] = 0
+		if k == 0 && maybeTerm {
+			// the first descriptor's type byte is corrupted into a terminator, or not
+			corrupted := vp.Bool("typeCorrupted")
+			vd[0] = vp.IteU8(corrupted, 255, typ)
+			if corrupted {
+				noPVD = true
 			}
 		}
+		copy(vd[1:6], "CD001")
 		c18NullDates(vd)
 		c18RecDate(vd[156:])
 		vd[156+32] = 1
-		dev.put(int64(32768+2048*k), vd)
+		dev.vd[k] = vd
 	}
 	limit := uint64(2*size + c18Slack)
 	vp.Unwind(8)
 	vp.AllocCap(16)
 	vp.AllocLimit(limit)
-	if t0typ != 1 {
-		if t1typ != 1 {
-			// KF-C18-27: no primary volume descriptor before the terminator: nil root record dereferenced
-			vp.KnownPanic("KF-C18-27", "iso9660.detectSUSP)")
-		}
+	if noPVD {
+		// KF-C18-27: no primary volume descriptor before the terminator: nil root record dereferenced
+		vp.KnownPanic("KF-C18-27", "iso9660.detectSUSP)")
 	}
 	vp.KnownPanic("KF-C18-25", "iso9660.parsePathTable)")
 	vp.KnownPanic("KF-C18-25", "iso9660.parseJolietPathTable)")
@@ -430,10 +454,8 @@ func c18IsoRead(t0typ, t1typ byte) {
 	}
 }
 
-func VP_C18_iso_read_pvd_term() { c18IsoRead(1, 255) }
-func VP_C18_iso_read_term()     { c18IsoRead(255, 255) }
-func VP_C18_iso_read_svd_term() { c18IsoRead(2, 255) }
-func VP_C18_iso_read_pvd_pvd()  { c18IsoRead(1, 1) }
+func VP_C18_iso_read_pvd_term() { c18IsoRead(1, 255, true) }
+func VP_C18_iso_read_svd_term() { c18IsoRead(2, 255, false) }
 
 // VP_C18_iso_readdir_alloc: readDirectoryPVD allocates the data length found in the directory's own record.
 func VP_C18_iso_readdir_alloc() {
